@@ -344,13 +344,21 @@ BOUNDS = {
               "dir_menus": [(0, 0)]},
     "thorough": {"pairs": {1: pegen.size_pairs(), 2: pegen.size_pairs(),
                            3: [[0, 5], [1, 0], [2, 3], [3, 3], [4, 1], [5, 4]]},
-                 "dir_menus": [(0, 0), (2, 2)]},
+                 "dir_menus": [(0, 0), (2, 2)], "full_3sec": True},
 }
+
+
+EXTREME_HDRS = (0, 3)     # header menus (default, packed) crossed with the full 36^3 three-section size lattice
+EXTREME_IMPS = (0, 3)
 
 
 def pe_cases(tier, idx, nsh):
     b = BOUNDS[tier]
+    k = -1
+    small = set()
     for k, lay in enumerate(pegen.section_layouts(3, b["pairs"])):
+        if len(lay) == 3:
+            small.add(tuple(map(tuple, lay)))
         if k % nsh != idx:
             continue
         for ws in (32, 64):
@@ -359,6 +367,20 @@ def pe_cases(tier, idx, nsh):
                     for (e, r) in b["dir_menus"]:
                         for align_s in (True, False):
                             yield [ws, h, lay, imp, e, r], align_s
+    if b.get("full_3sec"):
+        # every one of the 36^3 three-section size layouts, under the default and the packed header menu, without
+        # imports and with the largest import menu
+        for lay in pegen.section_layouts(3, {1: [], 2: [], 3: pegen.size_pairs()}):
+            if tuple(map(tuple, lay)) in small:
+                continue
+            k += 1
+            if k % nsh != idx:
+                continue
+            for ws in (32, 64):
+                for h in EXTREME_HDRS:
+                    for imp in EXTREME_IMPS:
+                        for align_s in (True, False):
+                            yield [ws, h, lay, imp, 0, 0], align_s
 
 
 def _bump(d, k, n=1):
@@ -405,7 +427,7 @@ def run(ctx):
     tier = "quick" if ctx.quick else "thorough"
     vm_class()
     entries, manifest = elfcorpus.load()
-    nsh = 32 if ctx.quick else 128
+    nsh = 32 if ctx.quick else 256
     shards = [("pe", tier, i, nsh) for i in range(nsh)]
     n_elf = 0
     for ent in entries:
@@ -446,7 +468,9 @@ def run(ctx):
         "exhaustive": True,
         "bounds": {"pe": {"wsize": [32, 64], "hdr_menus": list(pegen.HDR_NAMES), "sizes": list(pegen.SIZES),
                           "pair_alphabet_by_section_count": {str(k): v for k, v in b["pairs"].items()},
-                          "import_menus": 4, "export_reloc_menus": b["dir_menus"], "align_s": [True, False]},
+                          "import_menus": 4, "export_reloc_menus": b["dir_menus"], "align_s": [True, False],
+                          "all_36^3_three_section_layouts": bool(b.get("full_3sec")),
+                          "hdr_and_import_menus_for_the_36^3_part": [[pegen.HDR_NAMES[h] for h in EXTREME_HDRS], list(EXTREME_IMPS)]},
                    "elf": {"corpus_files": len(entries), "load_bases": [0, ELF_BASE_ALT], "loads": n_elf}},
         "distinct_outcomes": len(outcomes),
         "outcomes": outcomes,
